@@ -351,6 +351,67 @@ def rule_e(ctx):
                                   'is ignored' % flag)
 
 
+def rule_f(ctx):
+    """The new connection is really brought up: the transport taken from the provider resolves the transport future the
+    new tasks wait on and is connected (a no-op for TCP, the handshake for websocket-style transports); nothing that
+    gates the start of the tasks (the closing flag of the previous connection) is left set when they are started."""
+    rep = ctx.report
+    slots = ctx.slots
+    C = slots.RSocketClient
+    cn = C.lookup('_connect_new_transport')
+    if cn is None:
+        raise AnalysisError('C17.f: _connect_new_transport vanished')
+    ok = True
+    why = ''
+    n = 0
+    for p in ctx.paths(cn, C, inline_depth=1, no_inline={'_get_new_transport'}):
+        if p.outcome != 'return':
+            continue
+        n += 1
+        got = [e for e in p.events if e.kind == 'call' and e.data.get('name') == '_get_new_transport']
+        sets = [e for e in p.events if e.kind == 'call' and e.data.get('name') == 'set_result']
+        conn = [e for e in p.events if e.kind == 'call' and e.data.get('name') == 'connect' and e.data.get('awaited')]
+        if len(got) != 1 or len(sets) != 1:
+            ok, why = False, 'the transport future is not resolved exactly once with a transport taken from the provider'
+            continue
+        new_t = ('awaited', strip_epoch(got[0].data['value'].term))
+        if strip_epoch(sets[0].data['args'][0].term) not in (new_t, new_t[1]):
+            ok, why = False, 'the transport future is resolved with something other than the new transport'
+        none = [c for c in p.events if c.kind == 'cond' and c.data['key'][0] == 'isnone' and c.seq < sets[0].seq and
+                strip_epoch(c.data['key'][1]) in (new_t, new_t[1])]
+        if not none or none[-1].data['value'] is not False:
+            ok, why = False, 'an exhausted provider (None) is not rejected before the future is resolved'
+        if len(conn) != 1 or conn[0].seq < sets[0].seq:
+            ok, why = False, ('the new transport is not connected (await transport.connect()): websocket-style '
+                              'transports never perform their handshake')
+    rep.add('C17.f', 'RSocketClient._connect_new_transport / new transport resolved into the future and connected', cn,
+            ok and n > 0, why or 'provider -> not None -> set_result(transport) -> await transport.connect() (%d paths)'
+            % n)
+    con = C.lookup('connect')
+    ok = True
+    why = ''
+    n = 0
+    for p in ctx.paths(con, C, inline_depth=2, no_inline={'_connect_new_transport', 'stop_all_streams',
+                                                          '_update_last_keepalive', 'send_priority_frame',
+                                                          '_create_setup_frame', '_subscribe_to_lease_publisher'}):
+        starts = [e for e in p.events if (e.kind == 'enter' and e.data['callee'].name == '_start_tasks') or
+                  (e.kind == 'call' and e.data.get('name') == '_start_tasks')]
+        if not starts:
+            continue
+        n += 1
+        flag = None
+        for e in p.events:
+            if e.seq > starts[0].seq:
+                break
+            if e.kind == 'store' and e.data['target'][0] == 'attr' and e.data['target'][2] == '_is_closing':
+                flag = e.data['value'].const if e.data['value'].is_const() else '?'
+        if flag is not False:
+            ok, why = False, ('the closing flag of the previous connection is %s when the new tasks are started: '
+                              '_start_task_if_not_closing starts nothing' % ('not reset' if flag is None else flag))
+    rep.add('C17.f', 'RSocketClient.connect / closing flag cleared before the tasks start', con, ok and n > 0,
+            why or 'self._is_closing = False precedes _start_tasks() on all %d paths' % n)
+
+
 def rule_plumbing(ctx):
     """Reconnect closes the old connection: tasks stopped, old transport closed; hooks of the sender run per connection."""
     from . import plumbing
@@ -358,4 +419,4 @@ def rule_plumbing(ctx):
     plumbing.rule_sender_hooks(ctx, 'C17.b')
 
 
-RULES = [('C17.a', rule_a), ('C17.b', rule_b), ('C17.c', rule_c), ('C17.d', rule_d), ('C17.e', rule_e), ('C17.b', rule_plumbing)]
+RULES = [('C17.a', rule_a), ('C17.b', rule_b), ('C17.c', rule_c), ('C17.d', rule_d), ('C17.e', rule_e), ('C17.f', rule_f), ('C17.b', rule_plumbing)]
